@@ -14,10 +14,10 @@ import (
 type SimClock struct {
 	clockwork.Clock
 	NowFn func() time.Time
-	Reads int
 }
 
-func (c *SimClock) Now() time.Time { c.Reads++; return c.NowFn() }
+// Now keeps no state: it is called concurrently by the tasks of the concurrency engine.
+func (c *SimClock) Now() time.Time { return c.NowFn() }
 
 func (c *SimClock) Since(t time.Time) time.Duration { return c.NowFn().Sub(t) }
 
